@@ -31,6 +31,16 @@ CLAIMED = {
              "chunking is stated not explored; POSIX paths; CrossHair+z3 trusted",
         ref="DESIGN.md section 5 C16",
     ),
+    "C19": dict(
+        text="Bounded symbolic execution of cli()/LangServer.__init__/_load_config_file and its loaders for every option of "
+             "the parser (inventory regenerated from the parser object each run): symbolic presence in the file, CLI value and "
+             "file value (free bool/int; 3-value tables for str/list/dict), pairs of options, and faulty files (parser error, "
+             "7 non-object top levels, wrongly typed values alone or between valid ones). Oracle: file wins, absent keeps CLI, "
+             "faults => message + untouched options.",
+        note="json5.load, os.path.isfile and open stubbed; load_intrinsics cached; CLI side modelled as the parser's default "
+             "settings dict with the option overridden, passed through the real __init__; CrossHair+z3 trusted",
+        ref="DESIGN.md section 5 C19",
+    ),
 }
 
 NOT_APPLICABLE = {
